@@ -20,6 +20,12 @@ def features(j):
     f = {"kind": (j.get("kind") or "").split("/")[0], "outcome": j.get("outcome")}
     for s in j.get("shape") or []:
         f[s] = True
+    # which documents fail: an open finding keyed on a document class matches only when nothing else fails
+    ds = explain(j)
+    if isinstance(ds, dict):
+        f["failing"] = j.get("outcome")
+    else:
+        f["failing"] = "+".join(sorted({"json_null" if d.get("null") else "document" for d in ds})) or "none"
     return f
 
 
@@ -39,6 +45,8 @@ def explain(j):
         exp = None
         if (d.get("from") or "").startswith("value:"):
             exp = "ok:" + d["from"][6:]
+        elif d.get("null"):
+            exp = "err"   # the literal null holds neither a name nor a trait value
         elif s is not None and s in names:
             exp = "ok:%d" % names[s]
         elif s is not None and o["ci"] and s.lower() in lnames:
@@ -50,9 +58,9 @@ def explain(j):
             if not holds and not any(n.get("ok") for n in d.get("native") or []):
                 exp = "err"
         if exp is not None and d["res"] != exp:
-            out.append({"codec": d["codec"], "document": d["doc"], "expected": exp, "observed": d["res"],
+            out.append({"codec": d["codec"], "document": d["doc"], "null": bool(d.get("null")), "expected": exp, "observed": d["res"],
                         "library_view": {k: d.get(k) for k in ("str", "u64", "i64")}})
-            if len(out) >= 6:
+            if len(out) >= 40:
                 break
     return out
 
